@@ -69,6 +69,7 @@ impl SigV4Authenticator {
 //@ fn auth.rs impl SigV4Authenticator :: canonical_request_sha256
 //@ params
 //@ props C08 C01 C17
+//@ consumers C02
 //@ ret r
 //@ spec
     ensures r@ == self.creq_hash()
@@ -107,6 +108,7 @@ impl SigV4Authenticator {
 //@ params region service server_timestamp allowed_mismatch
 //@ hideutf8
 //@ props C08 C03 C04 C13 C17
+//@ consumers C01 C02 C14
 //@ ret r
 //@ replace 1 `self.credential().split('/').collect::<Vec<&str>>()` => `str_split_to_vec(self.credential(), '/')`
 //@ replace 1 `cscope_date != expected_cscope_date` => `str_ne_string(cscope_date, &expected_cscope_date)`
@@ -137,6 +139,7 @@ impl SigV4Authenticator {
 //@ params
 //@ hideutf8
 //@ props C08 C01 C03 C16 C17
+//@ consumers C02 C04
 //@ ret r
 //@ replace 1 `self.credential().split_once('/').map(|x| x.1)` => `str_after_first(self.credential(), '/')`
 //@ spec
@@ -162,6 +165,7 @@ impl SigV4Authenticator {
 //@ params region service get_signing_key
 //@ hideutf8
 //@ props C08 C03 C14 C17
+//@ consumers C01 C02 C15
 //@ ret r
 //@ replace 1 `self.credential().split('/').next()` => `str_split_first_piece(self.credential(), '/')`
 //@ replace 1 `self.session_token().map(|x| x.to_string())` => `option_str_to_string(self.session_token())`
@@ -200,6 +204,7 @@ impl SigV4Authenticator {
 //@ params region service server_timestamp allowed_mismatch get_signing_key
 //@ hideutf8
 //@ props C08 C01 C02 C14 C15 C17 C13
+//@ consumers C03 C04
 //@ ret r
 //@ spec
     ensures
